@@ -27,6 +27,9 @@ TRUSTED = [
     "thresholds of compute_cut_positions for sensitivities 2-4 - constrained only through the conformance of their outputs",
     "find_subinstances / AlleleMatrix.extractSubMatrix: only the shape of their output (distinct threads and variants, "
     "no shared cell) is checked on every traced call; it is a hypothesis of C15_sub_results_preserve",
+    "find_breakpoints and the sort-and-merge of breakpoints in integrate_sub_results are not modelled: that a block's "
+    "breakpoint positions are strictly increasing and inside the block is checked on every traced call and is a "
+    "hypothesis of C15_aggregate_sorted_from_zero; hap_cuts / the HS tag (--include-haploid-sets) are out of scope",
     "haplotype matrices are handed to Coq column-wise and genotype dicts as allele vectors (transposition and dict "
     "expansion done by the harness)",
     "CLI level: the read-covered heterozygous variants of a sample are obtained with the real PhasedInputReader/VcfReader "
@@ -490,6 +493,14 @@ CLI_CHECKS = {
 }
 
 
+CLI_DISTRUST_CHECKS = {
+    # with --distrust-genotypes the genotype clause is not demanded; blocks, untouched samples and the frame are
+    "L1": ("fun c => let '(samples, untouched, fin, fout) := c in "
+           "forallb (fun s : list Z * list obs => intervals_okb (fst s) (phased_pairs (snd s))) samples && "
+           "forallb (fun u => untouched_okb (fst u) (snd u)) untouched && frame_okb fin fout"),
+}
+
+
 def make_cli_spec(rng, ploidy=None, deep=False):
     k = ploidy or rng.choice([3, 4])
     if deep:
@@ -604,6 +615,8 @@ def cli_case(ctx, spec, wd):
     args = ["polyphase", "--ploidy", spec["k"], "-B", spec["sens"], "--threads", "1", "-o", out]
     if spec["prephase"]:
         args.append("--use-prephasing")
+    if spec.get("distrust"):
+        args.append("--distrust-genotypes")
     if ref:
         args += ["--reference", ref]
     args += [vcf, bam]
@@ -675,9 +688,15 @@ def check_cli(ctx, runs, label):
         ctx.tally(f"cli.ploidy{r['spec']['k']}")
         ctx.tally(f"cli.sens{r['spec']['sens']}")
         ctx.tally("cli.prephasing" if r["spec"]["prephase"] else "cli.no_prephasing")
+        if r["spec"].get("distrust"):
+            ctx.tally("cli.distrust_genotypes")
         ctx.tally("cli.phased_calls", r["nphased"])
-    failing = evaluate("C15cli", CLI_CHECKS, cases, shard=4)
-    for i in failing["L1"]:
+    trusted = [i for i, r in enumerate(runs) if not r["spec"].get("distrust")]
+    distrusted = [i for i, r in enumerate(runs) if r["spec"].get("distrust")]
+    f1 = evaluate("C15cli", CLI_CHECKS, [cases[i] for i in trusted], shard=4)
+    f2 = evaluate("C15clid", CLI_DISTRUST_CHECKS, [cases[i] for i in distrusted], shard=4)
+    failing_idx = [trusted[i] for i in f1["L1"]] + [distrusted[i] for i in f2["L1"]]
+    for i in failing_idx:
         r = runs[i]
         msgs, sig = [], None
         for s, chrom, a, obs, outs in r["info"]:
@@ -687,6 +706,8 @@ def check_cli(ctx, runs, label):
                     sig = sig or "cli:untouched-sample-changed"
                 continue
             for p, gi, ips, go, ph, ps in obs:
+                if r["spec"].get("distrust"):
+                    continue
                 if sorted(gi) != sorted(go):
                     msgs.append(f"{chrom}:{p} sample {s}: input genotype {gi} -> output {go}{' phased' if ph else ''}")
                     sig = sig or (SIG_UNDERFLOW if (s, chrom, p) in r["planted"] else "cli:genotype")
@@ -743,6 +764,10 @@ def run(ctx):
     items.append((corpus, G.run_force(corpus)))
     check_force(ctx, items, "synthetic")
     ctx.sample({"force_case": items[0][0], "impl_out": items[0][1]})
+    # exhaustive small space: all genotypes x configurations at one position, ploidy 2..3 (thorough: ..4)
+    items = [(c, G.run_force(c)) for c in G.gen_force_exhaustive(ctx.n(3, 4))]
+    ctx.extra["force_exhaustive_cases"] = len(items)
+    check_force(ctx, items, "exhaustive")
 
     # ---- B: assignments
     items = []
@@ -817,6 +842,10 @@ def run(ctx):
         s = make_cli_spec(rng, ploidy=k)
         s["sens"] = i % 6
         s["prephase"] = (i % 3 == 1) or s["prephase"]
+        specs.append(s)
+    for _ in range(ctx.n(1, 8)):                     # --distrust-genotypes: only blocks / frame are demanded
+        s = make_cli_spec(rng)
+        s["distrust"] = True
         specs.append(s)
     corpus_deep = make_cli_spec(rng, deep=True)      # corpus: the CLI-level witness of force:likelihood-underflow
     corpus_deep["seed"] = 7
